@@ -220,6 +220,8 @@ class Parser:
             # strip a module qualifier
             if isinstance(f, ast.Attribute) and isinstance(f.value, ast.Name) and f.value.id in self.mods:
                 f = ast.Name(id=f.attr)
+            if isinstance(f, ast.Call):
+                return ('meth', self.expr(f), '__call__', args)       # K(params)()
             if isinstance(f, ast.Name):
                 if f.id in self.classes:
                     return ('new', f.id, args)
